@@ -30,36 +30,59 @@ TECHNIQUE = "path counting over the CFGs of the two footnote render methods and 
 
 META = {
     "explanation": (
-        "Structural necessary conditions of consistent footnote numbering/linking/collection, decided on syntax trees and "
-        "CFGs: (R1) SortFootnotes runs before and UnreferencedFootnotesDetector/CollectFootnotes run after docutils' "
-        "Footnotes transform (priorities evaluated symbolically against the installed docutils source), each transform is "
-        "registered exactly once per front end and Sphinx's own unreferenced-footnote detector is removed; (R2) the "
-        "reference and the definition renderer classify the same label with the same digit predicate and, on every path, "
-        "feed the matching docutils registries (manual: Text/label child + note_footnote; auto: auto=1 + "
-        "note_autofootnote(_ref)), refname = names[0] = label, name stored before note_explicit_target; (R3) the duplicate "
-        "path issues exactly one [ref.footnote] warning and returns before any registration or rendering; (R4) the "
-        "collector is guarded by myst_footnote_sort only, gathers the footnote and autofootnote registries, moves each "
-        "footnote once (detach before attach) in ascending key order, builds at most one transition under the "
-        "myst_footnote_transition test and attaches it to the document before the footnotes; SortFootnotes sorts the "
-        "autofootnote registry once; (R5) the markdown-it footnote plugin runs with inline=False, move_to_end=False, "
-        "always_match_refs=True (defaults read from the plugin source); (R6) the duplicate test consults footnote "
-        "registries, not the document-wide name table; (R7) the settings the transforms read are written unconditionally "
-        "by the renderer from the same-named config fields; (R8) the label order key is total (one comparable kind, or "
-        "every creatable manual label converts with int()); (R9) the footnote transition is only attached where docutils "
-        "allows a transition (not first, not next to another transition); (R10) SortFootnotes ranks a footnote by the "
-        "position of its FIRST reference (list.index / first-wins table, never a last-wins table over autofootnote_refs). "
-        "(R11) UnreferencedFootnotesDetector reports every definition without back-references exactly once: one warning per "
-        "iteration on the unreferenced path, none on the referenced path, no early exit, and a deferred collection must "
-        "keep one entry per footnote. "
-        "R4 also requires the sorter's re-ordering and the collector's gathering to be permutations of the registries "
-        "(no filtered rebuild, no skipped entry); R6 also requires the duplicate test to cover both definition registries "
-        "and everything it reads (registry entry, name) to be stored before the footnote body is rendered, where a nested "
-        "duplicate can occur."
+        "Structural necessary conditions of consistent footnote numbering, linking, collection and reporting, decided on "
+        "syntax trees, CFG path counts and the installed library sources (parsed, never imported). "
+        "(R1) SortFootnotes runs before and UnreferencedFootnotesDetector/CollectFootnotes run after docutils' Footnotes "
+        "transform (priorities evaluated symbolically against docutils' source); every transform is registered exactly once "
+        "per front end and Sphinx's own unreferenced-footnote detector is removed. "
+        "(R2) The reference and the definition renderer classify the same, never re-bound label with the same digit "
+        "predicate (directly, through a local alias or a value-only helper; several correlated branches are allowed) and on "
+        "every path of each side feed the matching docutils registries (manual: Text/label child + note_footnote; auto: "
+        "auto=1 + note_autofootnote(_ref)); refname = names[0] = the unmodified label; stores precede the registry calls "
+        "that read them; helpers that receive the node are followed. "
+        "(R3) The duplicate-definition path issues exactly one [ref.footnote] warning and returns before any construction, "
+        "registration or rendering. "
+        "(R4) The collector's move loop (in apply or one helper) is guarded by myst_footnote_sort only, gathers every entry "
+        "of document.footnotes and autofootnotes exactly once, detaches then attaches each footnote once per iteration, in "
+        "ascending sorted(key=) order; at most one transition is built, under both settings, appended to the document before "
+        "the footnotes; SortFootnotes permutes document.autofootnotes in place exactly once (no filtered rebuild, no "
+        "discarded copy), ordered from document.autofootnote_refs. "
+        "(R5) footnote_plugin runs with inline=False, move_to_end=False, always_match_refs=True (defaults read from the "
+        "plugin source), and the `[text]{attrs}` span rule of attrs_plugin is inserted behind footnote_ref in markdown-it's "
+        "inline chain (chain and insertion anchors read from markdown_it/parser_inline.py and the two plugin sources). "
+        "(R6) The duplicate test consults the footnote registries (both of them), not the document-wide name/id tables, and "
+        "everything it reads (registry entry, name) is stored before the footnote body is rendered, where a nested duplicate "
+        "can occur. "
+        "(R7) Every myst_footnote_* setting a transform reads is written unconditionally during render from the same-named "
+        "MdParserConfig field, and each front end's parse builds the configuration it hands to create_md_parser from the "
+        "document at hand, never from an attribute the parser object stores itself (a memo that outlives the document). "
+        "(R8) Sort keys are total: one comparable kind on all returns, or every label the renderer can create converts with int(). "
+        "(R9) The footnote transition is attached only under a guard that looks at the document's children (not first) and "
+        "under a test for an existing final transition (not adjacent) whose look-out goes down the tree (advancing loop, "
+        "recursion or docutils traversal), because docutils later hoists a transition that ends the last section. "
+        "(R10) SortFootnotes ranks a footnote by the position of its FIRST reference (list.index / first-wins table, never a "
+        "last-wins table over autofootnote_refs). "
+        "(R11) UnreferencedFootnotesDetector examines both registries and reports every definition without back-references "
+        "exactly once: one report per iteration on the unreferenced path, none on the referenced path, no early exit, and a "
+        "deferred collection keeps one entry per footnote and is reported once per entry."
     ),
-    "not_decided": "numbering as a function of the arrangement (computed by docutils' Footnotes transform at run time); behaviour of rST footnotes created inside eval-rst",
-    "trusted_base": ["CPython ast", "docutils/transforms/references.py and mdit_py_plugins/footnote/index.py as installed", "mystsa CFG/path counting"],
+    "not_decided": (
+        "the numbers themselves as a function of the arrangement (computed by docutils' Footnotes transform at run time); "
+        "with footnote_sort off, auto numbers follow definition order (documented behaviour of the option); which container "
+        "types the final-transition look-out descends into (only that it descends); a manual/auto classification moved "
+        "wholesale into a helper is ANALYSIS-ERROR (path counts would span two CFGs); rST footnotes created inside eval-rst "
+        "(parsed into a separate document); inline rules of third-party markdown-it plugins other than footnote/attrs"
+    ),
+    "trusted_base": [
+        "CPython ast",
+        "docutils/transforms/references.py, sphinx/transforms/__init__.py, markdown_it/parser_inline.py, mdit_py_plugins/footnote/index.py and mdit_py_plugins/attrs/index.py as installed",
+        "mystsa CFG, dominance and path counting",
+    ],
     "assumptions": [
         "docutils' Footnotes transform numbers document.autofootnotes in list order and resolves references by name",
+        "docutils' Transitions transform moves a transition that ends a section up to the parent level",
+        "markdown-it tries inline rules in chain order and the first rule that matches wins; Ruler.after(x) inserts directly behind x",
+        "footnote names that survive in node['names'] are unique in the document (docutils moves clashing names to dupnames)",
         "symbol footnotes never reach the outer document's registries (eval-rst parses into a separate document)",
     ],
 }
@@ -474,10 +497,108 @@ REQUIRED_PLUGIN_OPTIONS = {
 }
 
 
+def _literal_kw(call: ast.Call, lib: FunctionInfo, name: str):
+    """effective literal value of a keyword option (keyword given, else the library default)"""
+    v = kwarg(call, name)
+    if v is None:
+        a = lib.node.args
+        for arg, dflt in zip(a.kwonlyargs, a.kw_defaults):
+            if arg.arg == name and isinstance(dflt, ast.Constant):
+                return dflt.value
+        raise Unsupported(f"option {name} of {lib.qualname} has no literal default")
+    if isinstance(v, ast.Constant):
+        return v.value
+    raise Unsupported(f"option {name} is not a literal: {short(v, 40)}")
+
+
+def _ruler_insertions(lib: FunctionInfo, rule_name: str):
+    """[(kind, anchor expr, call)] for ``md.inline.ruler.after/before(anchor, rule_name, ...)`` in a plugin."""
+    out = []
+    for n in lib.local_nodes():
+        if isinstance(n, ast.Call) and isinstance(n.func, ast.Attribute) and n.func.attr in ("after", "before") and (dotted(n.func.value) or "").endswith("inline.ruler") and len(n.args) >= 2:
+            if isinstance(n.args[1], ast.Constant) and n.args[1].value == rule_name:
+                out.append((n.func.attr, n.args[0], n))
+    return out
+
+
+def _span_rule_order(corpus: Corpus, rep: Report, f: FunctionInfo, fn_use: ast.Call) -> None:
+    """Both the footnote_ref rule and the bracketed-span rule of attrs_plugin start at ``[``; markdown-it runs
+    the inline rules in chain order and the first match wins, so the span rule has to come later."""
+    uses = []
+    for n in f.local_nodes():
+        if isinstance(n, ast.Call) and isinstance(n.func, ast.Attribute) and n.func.attr == "use" and n.args:
+            tgt = f.module.resolve(dotted(n.args[0]) or "")
+            if tgt.startswith("mdit_py_plugins.attrs") and tgt.endswith(".attrs_plugin"):
+                uses.append((n, tgt))
+    if not uses:
+        rep.listed("C11.R5", f"{f.fq}|use(attrs_plugin)|none", f.site())
+        return
+    # the inline chain of markdown-it and where the footnote plugin puts footnote_ref
+    pim = corpus.sibling("markdown_it/parser_inline.py")
+    rep.saw_sibling(pim.rel)
+    node = pim.const_nodes.get("_rules")
+    if not isinstance(node, ast.List):
+        raise Unsupported("markdown_it.parser_inline._rules is not a list literal")
+    base = [e.elts[0].value for e in node.elts if isinstance(e, ast.Tuple) and e.elts and isinstance(e.elts[0], ast.Constant)]
+    fn_tgt = f.module.resolve(dotted(fn_use.args[0]) or "")
+    _m, fn_lib = _sibling_function(corpus, fn_tgt)
+    ins = _ruler_insertions(fn_lib, "footnote_ref")
+    fcfg = get_cfg(fn_lib)
+    inline = _literal_kw(fn_use, fn_lib, "inline")
+    chosen = []
+    for kind, anchor, call in ins:
+        g = fcfg.guards(fcfg.stmt_of(call))
+        ok = True
+        for t, pol in g:
+            if _is_name(t, "inline"):
+                ok = ok and (bool(inline) == pol)
+            else:
+                raise Unsupported(f"footnote plugin: insertion of footnote_ref guarded by `{short(t, 40)}`")
+        if ok:
+            chosen.append((kind, anchor))
+    if len(chosen) != 1 or chosen[0][0] != "after" or not isinstance(chosen[0][1], ast.Constant) or chosen[0][1].value not in base:
+        raise Unsupported("footnote plugin: cannot tell where footnote_ref is inserted in the inline chain")
+    fr_anchor = chosen[0][1].value
+    cfg = get_cfg(f)
+    for use, tgt in uses:
+        _m2, at_lib = _sibling_function(corpus, tgt)
+        rep.saw_sibling(_m2.rel)
+        key = f"{f.fq}|use(attrs_plugin)|span rule after footnote_ref"
+        site = f.module.site(use)
+        if not _literal_kw(use, at_lib, "spans"):
+            rep.listed("C11.R5", f"{key}|spans off|{short(use, 50)}", site, "no span rule registered")
+            continue
+        sp_ins = _ruler_insertions(at_lib, "span")
+        if len(sp_ins) != 1 or sp_ins[0][0] != "after" or not isinstance(sp_ins[0][1], ast.Name):
+            raise Unsupported("attrs plugin: cannot tell where the span rule is inserted")
+        where = _literal_kw(use, at_lib, sp_ins[0][1].id)
+        later = cfg.dominates(cfg.stmt_of(fn_use), cfg.stmt_of(use)) and cfg.stmt_of(fn_use) is not cfg.stmt_of(use)
+        if where == "footnote_ref":
+            if later:
+                rep.ok("C11.R5", key, site, "inserted directly after footnote_ref")
+            else:
+                raise Unsupported(f"{site}: attrs_plugin is not loaded after footnote_plugin")
+        elif where in base:
+            i, j = base.index(where), base.index(fr_anchor)
+            if i > j or (i == j and not later and cfg.dominates(cfg.stmt_of(use), cfg.stmt_of(fn_use))):
+                rep.ok("C11.R5", key, site, f"inserted after {where!r}, behind footnote_ref (after {fr_anchor!r})")
+            elif i == j and not later:
+                raise Unsupported(f"{site}: load order of attrs_plugin and footnote_plugin not understood")
+            else:
+                rep.violation(
+                    "C11.R5",
+                    key,
+                    site,
+                    f"attrs_plugin registers its `[text]{{attrs}}` span rule after {where!r}, i.e. before footnote_ref (inserted after {fr_anchor!r}): both rules start at `[` and the first match wins, so a reference followed by an attribute block, `[^a]{{.red}}`, becomes a span with the text '^a' - no footnote_reference, no number, no back-reference",
+                )
+        else:
+            raise Unsupported(f"{site}: span_after={where!r} is not a rule of markdown-it's base inline chain")
+
+
 @rule("C11.R5")
 def r5_plugin_options(corpus: Corpus, rep: Report, tier: str):
     _use(corpus)
-    rep.rule("C11.R5", "footnote_plugin is configured with inline=False, move_to_end=False, always_match_refs=True (effective values incl. library defaults)")
+    rep.rule("C11.R5", "footnote_plugin is configured with inline=False, move_to_end=False, always_match_refs=True (effective values incl. library defaults); the `[text]{attrs}` span rule of attrs_plugin is inserted behind footnote_ref in markdown-it's inline chain")
     f = corpus.func("parsers.mdit:create_md_parser")
     rep.saw_function(f.fq)
     calls = []
@@ -518,6 +639,7 @@ def r5_plugin_options(corpus: Corpus, rep: Report, tier: str):
                 rep.ok("C11.R5", key, f.module.site(call), f"{opt}={got} ({how})")
             else:
                 rep.violation("C11.R5", key, f.module.site(call), f"footnote_plugin runs with {opt}={got} ({how}), required {want}: {why}")
+    _span_rule_order(corpus, rep, f, calls[0][0])
     rep.expect_min("C11.R5", 3, "three options of the one footnote_plugin use")
 
 
@@ -535,10 +657,61 @@ def _setting_reads(fi: FunctionInfo) -> list[ast.Attribute]:
     ]
 
 
+def _self_attr_read(e: ast.AST) -> str | None:
+    """name of the parser attribute read by ``self.x`` / ``getattr(self, "x", ...)`` / ``self.__dict__[...]``"""
+    if isinstance(e, ast.Attribute) and _is_name(e.value, "self") and isinstance(e.ctx, ast.Load):
+        return e.attr
+    if isinstance(e, ast.Call) and dotted(e.func) == "getattr" and len(e.args) >= 2 and _is_name(e.args[0], "self") and isinstance(e.args[1], ast.Constant):
+        return str(e.args[1].value)
+    return None
+
+
+def _config_from_parser_state(corpus: Corpus, pf: FunctionInfo, arg: ast.expr):
+    """(node, attribute) if a value reaching ``arg`` is read from an attribute of the parser object that
+    package code itself stores (a memo that survives the document); None otherwise."""
+    owner_cls = pf.cls
+    written: set[str] = set()
+    if owner_cls is not None:
+        for ci in corpus.mro(owner_cls):
+            # class-level constants are not memos: only attributes stored through `self` count
+            for m in ci.methods.values():
+                for n in m.local_nodes():
+                    if isinstance(n, ast.Attribute) and _is_name(n.value, "self") and isinstance(n.ctx, ast.Store):
+                        written.add(n.attr)
+                    if isinstance(n, ast.Call) and dotted(n.func) == "setattr" and len(n.args) >= 2 and _is_name(n.args[0], "self") and isinstance(n.args[1], ast.Constant):
+                        written.add(str(n.args[1].value))
+    seen: set[str] = set()
+    work: list[ast.AST] = [arg]
+    while work:
+        e = work.pop()
+        for x in ast.walk(e):
+            a = _self_attr_read(x)
+            if a is not None and a in written:
+                return x, a
+            if isinstance(x, ast.Call) and isinstance(x.func, ast.Attribute) and _is_name(x.func.value, "self") and owner_cls is not None:
+                h = corpus.lookup_method(owner_cls, x.func.attr)
+                if h is not None and h.fq != pf.fq:
+                    stored_here = {n.attr for n in h.local_nodes() if isinstance(n, ast.Attribute) and _is_name(n.value, "self") and isinstance(n.ctx, ast.Store)}
+                    for n in h.local_nodes():
+                        a2 = _self_attr_read(n)
+                        if a2 is not None and a2 in stored_here:
+                            return x, a2
+            if isinstance(x, ast.Name) and isinstance(x.ctx, ast.Load) and x.id not in seen and x.id not in pf.params:
+                seen.add(x.id)
+                for n in pf.local_nodes():
+                    if isinstance(n, ast.Assign) and any(_is_name(t, x.id) for t in n.targets):
+                        work.append(n.value)
+                    elif isinstance(n, ast.AnnAssign) and _is_name(n.target, x.id) and n.value is not None:
+                        work.append(n.value)
+                    elif isinstance(n, ast.NamedExpr) and _is_name(n.target, x.id):
+                        work.append(n.value)
+    return None
+
+
 @rule("C11.R7")
 def r7_settings_plumbing(corpus: Corpus, rep: Report, tier: str):
     _use(corpus)
-    rep.rule("C11.R7", "every myst_footnote_* setting a transform reads is written unconditionally during render from the same-named config field")
+    rep.rule("C11.R7", "every myst_footnote_* setting a transform reads is written unconditionally during render from the same-named config field; each front end builds the configuration from the document at hand, never from a memo on the parser object")
     tm = corpus.mod(TRANS)
     reads: dict[str, list[tuple[FunctionInfo, ast.AST]]] = {}
     for fi in tm.functions.values():
@@ -585,7 +758,27 @@ def r7_settings_plumbing(corpus: Corpus, rep: Report, tier: str):
             rep.violation("C11.R7", key, ws[0][0].module.site(ws[0][1]), "; ".join(problems) + f" (read by {', '.join(sorted({r[0].qualname for r in rs}))})")
         else:
             rep.ok("C11.R7", key, ws[0][0].module.site(ws[0][1]), f"read by {', '.join(sorted({r[0].qualname for r in rs}))}")
-    rep.expect_min("C11.R7", 2, "myst_footnote_sort and myst_footnote_transition")
+    # the configuration handed to the renderer is made from this document's settings / front matter,
+    # never taken back from the parser object (which outlives the document)
+    for fq in ("parsers.docutils_:Parser.parse", "parsers.sphinx_:MystParser.parse"):
+        pf = corpus.func(fq)
+        rep.saw_function(pf.fq)
+        calls = [n for n in pf.local_nodes() if isinstance(n, ast.Call) and (dotted(n.func) or "").rsplit(".", 1)[-1] == "create_md_parser" and n.args]
+        if len(calls) != 1:
+            raise Unsupported(f"{pf.qualname}: expected one create_md_parser(config, ...) call, found {len(calls)}")
+        memo = _config_from_parser_state(corpus, pf, calls[0].args[0])
+        key = f"{pf.fq}|configuration is built from this document"
+        if memo is None:
+            rep.ok("C11.R7", key, pf.module.site(calls[0]))
+        else:
+            node, attr = memo
+            rep.violation(
+                "C11.R7",
+                key,
+                pf.module.site(node),
+                f"the configuration given to create_md_parser can come from `self.{attr}`, an attribute the parser writes itself and keeps between documents: a later document parsed with the same parser object is rendered with the footnote_sort/footnote_transition (and every other) setting of an earlier one",
+            )
+    rep.expect_min("C11.R7", 4, "myst_footnote_sort, myst_footnote_transition, two front ends")
 
 
 # ---------------------------------------------------------------------------
@@ -1675,10 +1868,43 @@ def _tests_transition(fi: FunctionInfo, n: ast.AST) -> bool:
     return False
 
 
+TRAVERSALS = {"findall", "traverse", "next_node", "walk", "walkabout", "last_child", "previous_sibling"}
+
+
+def _descends(f: FunctionInfo) -> str | None:
+    """How ``f`` goes down the node tree: a loop with a live back edge that re-binds a variable it reads,
+    direct recursion, or a docutils traversal call; None if it only looks at one level."""
+    cfg = get_cfg(f)
+    for n in f.local_nodes():
+        if isinstance(n, (ast.While, ast.For)) and n in cfg.succ:
+            t_edge = ("T", n)
+            if n not in cfg.reachable_from(t_edge):
+                continue  # every path through the body leaves the loop: it never advances
+            body_nodes = [x for st in n.body for x in ast.walk(st)]
+            stored = {x.id for x in body_nodes if isinstance(x, ast.Name) and isinstance(x.ctx, ast.Store)}
+            if isinstance(n, ast.For):
+                stored |= {x.id for x in ast.walk(n.target) if isinstance(x, ast.Name)}
+            loaded = {x.id for x in body_nodes if isinstance(x, ast.Name) and isinstance(x.ctx, ast.Load)}
+            live = []
+            for st in n.body:
+                for x in ast.walk(st):
+                    if isinstance(x, ast.Assign) and any(isinstance(t, ast.Name) and t.id in loaded for t in x.targets) and cfg.stmt_of(x) in cfg.succ and n in cfg.reachable_from(cfg.stmt_of(x)):
+                        live.append(x)
+            if isinstance(n, ast.For) or live:
+                return f"loop at {f.module.site(n)}"
+        if isinstance(n, ast.Call):
+            d = dotted(n.func) or ""
+            if d in (f.name, f"self.{f.name}"):
+                return "recursion"
+            if isinstance(n.func, ast.Attribute) and n.func.attr in TRAVERSALS:
+                return f".{n.func.attr}()"
+    return None
+
+
 @rule("C11.R9")
 def r9_transition_placement(corpus: Corpus, rep: Report, tier: str):
     _use(corpus)
-    rep.rule("C11.R9", "the footnote transition is attached only after inspecting the document's existing children: not first, not next to another transition")
+    rep.rule("C11.R9", "the footnote transition is attached only after inspecting the document's existing children: not first, not next to another transition - also one that ends the last (sub-)section, which docutils hoists later")
     fi = corpus.func(f"{TRANS}:CollectFootnotes.apply")
     cfg = get_cfg(fi)
     tsites = _transition_sites(fi)
@@ -1718,6 +1944,7 @@ def r9_transition_placement(corpus: Corpus, rep: Report, tier: str):
     # any test against the transition class / tag name in the function (guard or clean-up of a trailing transition)
     tests = []
     scope = list(fi.local_nodes())
+    funcs = [fi]
     level, seen_h = [fi], {fi.fq}
     for _depth in range(2):
         nxt = []
@@ -1726,6 +1953,7 @@ def r9_transition_placement(corpus: Corpus, rep: Report, tier: str):
                 if h.fq not in seen_h:
                     seen_h.add(h.fq)
                     nxt.append(h)
+                    funcs.append(h)
                     scope += list(h.local_nodes())
         level = nxt
     for n in scope:
@@ -1741,6 +1969,23 @@ def r9_transition_placement(corpus: Corpus, rep: Report, tier: str):
             site,
             "nothing checks whether the element the new transition will follow is itself a transition: a document whose last non-footnote element is a thematic break (`---`) gets two adjacent transitions and docutils reports 'At least one body element must separate transitions' (ERROR, without a source line)",
         )
+    # (c) docutils' Transitions transform later moves a transition that ends the last (sub-)section up to the
+    # document level, so the look-out for an existing final transition has to go down into the last section
+    if tests:
+        holders = [f for f in funcs if any(t in f.local_nodes() for t in tests)]
+        descends = None
+        for f in holders:
+            descends = descends or _descends(f)
+        key = f"{fi.fq}|footnote transition|a transition that ends the last section is seen too"
+        if descends:
+            rep.ok("C11.R9", key, holders[0].site(), descends)
+        else:
+            rep.violation(
+                "C11.R9",
+                key,
+                holders[0].site(),
+                f"{holders[0].qualname} tests for an existing transition without going down the tree (no loop that advances, no recursion, no tree traversal): a thematic break that ends the last section is only moved to the document level by docutils afterwards, so `# A`, `# B`, text, `---`, `[^x]: X` still gets two adjacent transitions and the docutils ERROR",
+            )
     rep.expect_min("C11.R9", 2, "not-first and not-adjacent")
 
 
@@ -2294,6 +2539,33 @@ def mutants(corpus: Corpus):
             recv = _seg(pm, use.func.value)
             rest = ", ".join(f"{k.arg}={unparse(k.value)}" for k in use.keywords if k.arg != "inline")
             add("c11-plugin-inline-left-to-default", "C11.R5", pm, use, f"{recv}.use(footnote_plugin, {rest})", "inline")
+    # span rule of attrs_plugin placed before footnote_ref (class of seed3 out-c11/1)
+    ause = find_node(cm, lambda n: isinstance(n, ast.Call) and isinstance(n.func, ast.Attribute) and n.func.attr == "use" and n.args and _is_name(n.args[0], "attrs_plugin") and kwarg(n, "spans") is not None)
+    if ause is not None and kwarg(ause, "span_after") is not None:
+        sa = kwarg(ause, "span_after")
+        add("c11-span-rule-after-image", "C11.R5", pm, sa, '"image"', "span rule after footnote_ref")
+        add("c11-span-rule-after-link", "C11.R5", pm, sa, '"link"', "span rule after footnote_ref")
+        recv = _seg(pm, ause.func.value)
+        rest = ", ".join([_seg(pm, a) for a in ause.args] + [f"{k.arg}={_seg(pm, k.value)}" for k in ause.keywords if k.arg != "span_after"])
+        add("c11-span-rule-left-to-default", "C11.R5", pm, ause, f"{recv}.use({rest})", "span rule after footnote_ref")
+    else:
+        out.append(("c11-span-rule-after-image", "use(attrs_plugin, spans=..., span_after=...) not found"))
+    # the per-document configuration memoised on the parser object (class of seed3 out-c11/2)
+    for mid, modname, fq_ in (("c11-docutils-config-cached-on-parser", "parsers.docutils_", "Parser.parse"), ("c11-sphinx-config-cached-on-parser", "parsers.sphinx_", "MystParser.parse")):
+        pmod = corpus.mod(modname)
+        pfn = pmod.functions.get(fq_)
+        cmp_call = find_node(pfn, lambda n: isinstance(n, ast.Call) and (dotted(n.func) or "").endswith("create_md_parser") and n.args) if pfn is not None else None
+        if cmp_call is None or not isinstance(cmp_call.args[0], ast.Name):
+            out.append((mid, "create_md_parser(config, ...) not found"))
+            continue
+        cname = cmp_call.args[0].id
+        first = find_stmt(pfn, lambda n, cname=cname: (isinstance(n, ast.Assign) and any(_is_name(t, cname) for t in n.targets)) or (isinstance(n, ast.AnnAssign) and _is_name(n.target, cname) and n.value is not None))
+        if first is None:
+            out.append((mid, "no assignment of the configuration found"))
+            continue
+        fi_ = " " * first.col_offset
+        val = _seg(pmod, first.value)
+        add(mid, "C11.R7", pmod, first, f"{cname} = getattr(self, \"_myst_config\", None)\n{fi_}if {cname} is None:\n{fi_}    {cname} = self._myst_config = {val}", "configuration is built from this document")
     # ---- R7
     fin = base.func("DocutilsRenderer._render_finalise") if "DocutilsRenderer._render_finalise" in base.functions else None
     if fin is not None:
@@ -2410,6 +2682,23 @@ def mutants(corpus: Corpus):
     if tif is not None:
         n = next((x for x in ast.walk(tif.test) if isinstance(x, ast.UnaryOp) and isinstance(x.op, ast.Not) and "children" in unparse(x)), None)
         add("c11-transition-may-open-document", "C11.R9", tm, n, "True", "not the first element")
+        # the look-out for a final transition stops at the top level (class of seed3 out-c11/3)
+        ewt = next((h for _c, h in _helper_calls(cf) if any(_tests_transition(h, x) for x in h.local_nodes())), None)
+        wloop = find_node(ewt, lambda n: isinstance(n, (ast.While, ast.For))) if ewt is not None else None
+        if wloop is not None:
+            adv = next((st for st in reversed(wloop.body) if isinstance(st, ast.Assign) and isinstance(st.targets[0], ast.Name)), None)
+            add("c11-final-transition-lookout-never-advances", "C11.R9", tm, adv, "return False", "ends the last section")
+            wi = " " * wloop.col_offset
+            add(
+                "c11-final-transition-lookout-top-level-only",
+                "C11.R9",
+                tm,
+                wloop,
+                f"children = [c for c in self.document.children if not isinstance(c, nodes.footnote)]\n{wi}return bool(children) and isinstance(children[-1], nodes.transition)",
+                "ends the last section",
+            )
+        else:
+            out.append(("c11-final-transition-lookout-never-advances", "helper with the transition test and a loop not found"))
         # revert of fix f4651d8: nothing looks at a transition that already ends the document
         n = next((x for x in ast.walk(tif.test) if isinstance(x, ast.UnaryOp) and isinstance(x.op, ast.Not) and "transition" in unparse(x.operand).lower() and "children" not in unparse(x)), None)
         add("c11-revert-f4651d8-transition-after-transition", "C11.R9", tm, n, "True", "not adjacent to an existing transition", True)
